@@ -384,6 +384,8 @@ impl<'a> VisitMut for Norm<'a> {
     fn visit_block_mut(&mut self, b: &mut Block) {
         let old = std::mem::take(&mut b.stmts);
         for mut s in old {
+            // R-NESTEDFN: fn items nested in a body are scope-level declarations; they are extracted by their own `@fn outer::inner`
+            if let Stmt::Item(Item::Fn(_)) = &s { self.bump("R-NESTEDFN"); continue; }
             // pre-anchors
             let mut before: Vec<Stmt> = vec![];
             let mut after: Vec<Stmt> = vec![];
@@ -508,6 +510,13 @@ impl<'a> VisitMut for Norm<'a> {
                     *e = ne;
                     return;
                 }
+            }
+            Expr::Lit(ExprLit { lit: Lit::ByteStr(bs), .. }) => {
+                // R-BYTESTR: b"ab" -> &[97u8, 98u8]  (same type &[u8; N], contents visible to Verus)
+                let elems: Vec<LitInt> = bs.value().iter().map(|b| LitInt::new(&format!("{}u8", b), Span::call_site())).collect();
+                *e = parse_quote!((&[#(#elems),*]));
+                self.bump("R-BYTESTR");
+                return;
             }
             Expr::Await(a) => {
                 let base = (*a.base).clone();
@@ -833,6 +842,18 @@ impl<'a> VisitMut for Norm<'a> {
                                 }
                             }
                             if !done { self.errors.push(format!("`.or_insert(..)` chain outside R-MAP in {}", self.fname)); }
+                        }
+                        "read_to_end" if mc.args.len() == 1 => {
+                            // R-ASYNCIO: `S.take(N).read_to_end(P)` -> `vx_take_read_to_end(S, N, P)` (futures AsyncReadExt adaptor pair)
+                            let mut inner = &*mc.receiver;
+                            while let Expr::Paren(p) = inner { inner = &*p.expr; }
+                            if let Expr::MethodCall(tk) = inner {
+                                if tk.method == "take" && tk.args.len() == 1 {
+                                    let (src, n, buf) = (&tk.receiver, &tk.args[0], &mc.args[0]);
+                                    replace = Some(parse_quote!(vx_take_read_to_end(#src, #n, #buf)));
+                                    self.bump("R-ASYNCIO");
+                                }
+                            }
                         }
                         "extend" if mc.args.len() == 1 => {
                             mc.method = Ident::new("vx_extend", mc.method.span());
